@@ -248,6 +248,10 @@ class _SpecRaggedMixin:
             else:
                 raise Unsupported(f"SpecRagged {name} with dtype {dtype}")
             return SpecRagged(self._shape, lambda r, c_: val, kind, dtype, f"{name}({self.name})")
+        if name in ("sum", "any", "all", "max", "min", "prod"):
+            # np.<reduction>(x, axis=-1): the real dispatch (RaggedArray.__array_function__ -> x.<name>(...) -> reduction wrapper -> ufunc.reduce),
+            # which ends in __array_ufunc__(..., "reduce") above
+            return _ragged_base().__array_function__(self, func, types, args, kwargs)
         raise Unsupported(f"SpecRagged array function {name}")
 
     # -- writing ----------------------------------------------------------------------------
